@@ -437,6 +437,16 @@ def _nc_mat(node, defs, MAT, A_, AH, extra=None):
             return AH
         if node.func.attr in ("conjugate", "conj") and isinstance(inner, ast.Call) and isinstance(inner.func, ast.Attribute) and inner.func.attr == "transpose" and _nc_mat(inner.func.value, defs, MAT, A_, AH, extra) == A_:
             return AH
+    if isinstance(node, ast.Attribute) and node.attr in ("T", "H"):
+        # (the loader spells x.transpose() as x.T)  conj().T / .T.conj() / .H of the matrix itself
+        inner = node.value
+        if node.attr == "H" and _nc_mat(inner, defs, MAT, A_, AH, extra) == A_:
+            return AH
+        if isinstance(inner, ast.Call) and isinstance(inner.func, ast.Attribute) and inner.func.attr in ("conjugate", "conj") and not inner.args and _nc_mat(inner.func.value, defs, MAT, A_, AH, extra) == A_:
+            return AH
+    if isinstance(node, ast.Call) and isinstance(node.func, ast.Attribute) and node.func.attr in ("conjugate", "conj") and not node.args \
+            and isinstance(node.func.value, ast.Attribute) and node.func.value.attr == "T" and _nc_mat(node.func.value.value, defs, MAT, A_, AH, extra) == A_:
+        return AH
     if isinstance(node, ast.BinOp) and isinstance(node.op, (ast.Mult, ast.MatMult)):
         return _nc_mat(node.left, defs, MAT, A_, AH, extra) * _nc_mat(node.right, defs, MAT, A_, AH, extra)
     raise AnalysisError("_Solver: expression outside the matrix-term subset: %s" % unparse(node)[:60])
